@@ -65,6 +65,24 @@ class Caught(object):
 from asynq.async_task import AsyncTask as _AsyncTask
 
 
+class _HelperFn(object):
+    """the 'function' handed to amap(): its .asynq(x) is the child task; calling it runs the child synchronously"""
+
+    def __init__(self, run, u, by):
+        self.run, self.u, self.by = run, u, by
+
+    def asynq(self, _x):
+        run, u = self.run, self.u
+        obj = run.task_obj.get(u)
+        if obj is None:
+            obj = run.fns[u].asynq()
+            run.register_task(u, obj, self.by)
+        return obj
+
+    def __call__(self, _x):
+        return self.run.sync_call(self.by, self.u)      # (a helper that calls its function synchronously shows up as a nested wait)
+
+
 class VTask(_AsyncTask):
     """a user-defined task class (@asynq(cls=VTask)): must be scheduled like any AsyncTask"""
 
@@ -112,6 +130,7 @@ class Run(object):
         self.in_sched_flush = []      # stack of batch ids between Before and After
         self.uid = 0
         self.leafobjs = []
+        self.helper_obj = {}          # child task id -> the amap() task through which it is started
         self.callers = []             # who is calling into asynq right now: "direct" (item.value() from a body) / "sync"
         self.debug_bids = {}          # id(DebugBatch) -> batch id
         self.last_struct = {}         # t -> [(fid, obj)]
@@ -210,6 +229,27 @@ class Run(object):
             return V("fut", self.obj_id[id(x)])
         return V("opaque", 0)
 
+    def _term_struct(self, t, k):
+        tm = self.prog["tasks"][t - 1]["segs"][k - 1]["term"]
+        if tm.get("reuse"):
+            base = self.prog["tasks"][t - 1]["segs"][tm["reuse"] - 1]["term"]["s"]
+            if tm["s"]["g"] == "Lst":
+                return {"g": "Lst", "n": 0, "xs": base["xs"] + tm["s"]["xs"]}
+            return base
+        return tm["s"]
+
+    def _unhelper(self, sdef, got):
+        """the value of a child started through amap(F, [0]) arrives as [r]: hand the body r, as if it had yielded the child"""
+        g = sdef["g"]
+        if g in ("Tup", "Lst") and isinstance(got, (tuple, list)) and len(got) == len(sdef["xs"]):
+            out = [self._unhelper(x, y) for x, y in zip(sdef["xs"], got)]
+            return tuple(out) if g == "Tup" else out
+        if g == "Dct" and isinstance(got, dict):
+            return dict(("k%d" % (i + 1), self._unhelper(x, got.get("k%d" % (i + 1)))) for i, x in enumerate(sdef["xs"]))
+        if g == "T" and self.prog["tasks"][sdef["n"] - 1].get("via") == "amap" and isinstance(got, list) and len(got) == 1:
+            return got[0]
+        return got
+
     def probe_reprs(self):
         """formatting any live asynq object is a diagnostic: it must not compute, start or change anything"""
         if len(self.keep) > 60:
@@ -261,6 +301,16 @@ class Run(object):
 
     def get_task(self, u, by):
         obj = self.task_obj.get(u)
+        if obj is None and self.prog["tasks"][u - 1].get("via") == "amap":
+            # the child is started through asynq's own helper: amap(F, [0]) with F.asynq(0) = the child task.  The helper's
+            # task is what the parent yields; its value [r] is unwrapped again by the parent's body (see _unhelper)
+            w = self.helper_obj.get(u)
+            if w is None:
+                from asynq.tools import amap
+                w = amap.asynq(_HelperFn(self, u, by), [0])
+                self.helper_obj[u] = w
+                self.keep.append(w)
+            return w
         if obj is None:
             if (u + by) % 4 == 0:
                 from asynq import async_call
@@ -688,6 +738,7 @@ class Run(object):
                         run.emit("SegEnd", t=t, k=k, b=1, s=res, a=run.active_id())
                         try:
                             got = yield obj
+                            got = run._unhelper(run._term_struct(t, k), got)
                             recv = _snapshot(got)
                             _poison(got)           # whatever asynq handed us is ours: nobody else may see these changes
                             ru = 0
